@@ -8,7 +8,7 @@
    and memory model, the kernel's sendmmsg/recvmmsg, Go memory aliasing and the DoH/DoQ library
    internals are outside (props/C10/NOTES.md). *)
 From Sdns Require Import Common.Base Gen.C10 C10.Model C10.ModelStream C10.ModelShare
-  C10.Proofs_UdpBase C10.Proofs_UdpInv C10.Proofs_UdpThm C10.Proofs_Stream C10.Proofs_Share C10.Proofs_Top.
+  C10.Proofs_UdpBase C10.Proofs_UdpInv C10.Proofs_UdpThm C10.Proofs_Stream C10.Proofs_Read C10.Proofs_Share C10.Proofs_Top.
 Open Scope nat_scope.
 
 (* ties: the constants the proofs compute with are the source's *)
@@ -97,6 +97,16 @@ Print Assumptions stream_parse_prefix.
 Theorem stream_parse_whole : forall ps, Forall fits16 ps -> parse_stream (stream_of ps) = (ps, []).
 Proof. exact stream_parse_whole_lemma. Qed.
 Print Assumptions stream_parse_whole.
+
+(* read side: for every fill-buffer size that holds a length prefix and every chunking of the
+   client's byte stream by conn.Read, the frames the loop extracts (next / body / fillMore, the
+   direct read of a frame larger than the buffer) are exactly the frames a reference parser finds:
+   whole, one per query, in order, stopping at the first frame it cannot complete *)
+Theorem stream_read_framing : forall F input script,
+  N.to_nat frame_prefix_len <= F ->
+  f_frames (S (length input)) F (mkFstate 0 [] (mkRconn input script)) = ref_frames (S (length input)) input.
+Proof. exact serve_conn_reads_frames. Qed.
+Print Assumptions stream_read_framing.
 
 (* the connection loop (prefix-first reads through a fill buffer of any size with any read
    chunking, flush before blocking, serial frames) only ever performs such stream operations,
